@@ -69,6 +69,8 @@ type Ext struct {
 	// the API) whose Node event the cluster state has not processed yet: Cluster.UpdatePod fails with NotFound for the node
 	// but already tracks the pod as an anti-affinity pod without a binding
 	UntrackedAntiPods int `json:"untrackedAntiPods,omitempty"`
+	// FeatureGates.CapacityBuffer is on and these CapacityBuffers exist: see buffers.go
+	Buffers []Buffer `json:"buffers,omitempty"`
 	// dynamic resource allocation is on (IgnoreDRARequests=false): see dra.go
 	DRA *Dra `json:"dra,omitempty"`
 }
@@ -84,16 +86,41 @@ type Env struct {
 	Ext    *Ext
 	// the deviceallocation controller the Provisioner reads the allocated in-cluster devices from (nil without DRA)
 	Dev *deviceallocation.Controller
-	ids map[*corev1.Pod]int
+	// the cache of CapacityBuffer virtual pods the Provisioner appends to the pending pods (nil without buffers)
+	VPods *virtualpods.Cache
+	ids   map[*corev1.Pod]int
+	// armed by the harness: runs once at the next List call made through Client
+	onList atomic.Pointer[func()]
+}
+
+// loseNode: the Node object is deleted (kubectl delete node; finalizers dropped first) and the node informer tells the
+// cluster state. The harness's own, legitimate change of the world.
+func (e *Env) loseNode(name string) {
+	node := &corev1.Node{}
+	if err := e.W.Client.Get(e.Ctx, types.NamespacedName{Name: name}, node); err == nil {
+		node.Finalizers = nil
+		if err := e.W.Client.Update(e.Ctx, node); err == nil {
+			_ = e.W.Client.Delete(e.Ctx, node)
+		}
+	}
+	e.W.Cluster.DeleteNode(name)
 }
 
 const csiDriver = "csi.c18.io"
 
 func ptr[T any](v T) *T { return &v }
 
-func countingClient(base client.Client, n *atomic.Int64) client.Client {
+func countingClient(base client.Client, n *atomic.Int64, onList *atomic.Pointer[func()]) client.Client {
 	ww := base.(client.WithWatch)
 	return interceptor.NewClient(ww, interceptor.Funcs{
+		// a hook the harness can arm to let something else happen in the cluster in the middle of a pass (fires once, at
+		// the next List call made through this client)
+		List: func(ctx context.Context, c client.WithWatch, list client.ObjectList, opts ...client.ListOption) error {
+			if h := onList.Swap(nil); h != nil {
+				(*h)()
+			}
+			return c.List(ctx, list, opts...)
+		},
 		Create: func(ctx context.Context, c client.WithWatch, obj client.Object, opts ...client.CreateOption) error {
 			n.Add(1)
 			return c.Create(ctx, obj, opts...)
@@ -224,8 +251,18 @@ func BuildEnv(s *world.Scenario, ext *Ext) (*Env, error) {
 			return nil, err
 		}
 	}
-	e.Client = countingClient(w.Client, e.Writes)
-	e.Prov = provisioning.NewProvisioner(e.Client, e.Rec, w.CP, w.Cluster, w.Clock, e.Dev, virtualpods.NewVirtualPodCache(e.Client))
+	e.Client = countingClient(w.Client, e.Writes, &e.onList)
+	if len(ext.Buffers) > 0 {
+		if err := e.applyBuffers(ext.Buffers); err != nil {
+			return nil, err
+		}
+		e.Writes.Store(0)
+	}
+	vp := e.VPods
+	if vp == nil {
+		vp = virtualpods.NewVirtualPodCache(e.Client)
+	}
+	e.Prov = provisioning.NewProvisioner(e.Client, e.Rec, w.CP, w.Cluster, w.Clock, e.Dev, vp)
 	e.Queue = disruption.NewQueue(e.Client, e.Rec, w.Cluster, w.Clock, e.Prov)
 	w.Cluster.SetSynced(true)
 	// memoised derived data of the instance types is computed once up front (it is a cache, not a change of the catalog)
